@@ -89,6 +89,21 @@ def decide(pid, tier, seed):
                 results.append({"name": c.get("unit") or c.get("name"), "kind": c["kind"], "backend": c["kind"],
                                 "status": "undecided", "reason": "tool crash: %r" % (e,), "obligations": 0,
                                 "discharged": 0, "failures": [], "trusted": [], "wall_s": 0})
+    # bounded stand-in: a unit the verifier could not decide (construct outside its subset, lost anchor) is handed to
+    # the unit's native searcher; a disagreement with the spec twin that replays on the real code is a violation
+    # (labelled bounded), no hit leaves the unit undecided
+    for r in results:
+        if r.get("status") == "undecided" and r.get("kind") == "verus" and r["name"].split("_canary")[0] in sidecar.SEARCHERS:
+            try:
+                cex = sidecar.search(pid, sidecar.SEARCHERS[r["name"]], {"function": ""}, seed, 60 if tier == "thorough" else 10)
+            except Exception as e:
+                cex = None
+            r.setdefault("bounded", []).append("%s: undecided by Verus (%s); native random/boundary search with the spec twin as bounded stand-in, budget %ds" % (r["name"], r.get("reason", "")[:120], 60 if tier == "thorough" else 10))
+            if cex is not None:
+                r["status"] = "violation"
+                r.setdefault("failures", []).append({"id": "%s/bounded-search" % r["name"], "kind": "bounded-search", "function": "",
+                    "message": "unit undecided by the verifier; bounded native search found an input on which the real code disagrees with the spec twin",
+                    "clause": "spec twin disagreement", "cex": cex, "rendered": r.get("reason", "")})
     known = load_known()
     violations = []
     known_hits = []
@@ -111,7 +126,7 @@ def decide(pid, tier, seed):
             cex = f["cex"]
         else:
             try:
-                cex = sidecar.search(pid, r["name"], f, seed, 60 if tier == "thorough" else 8)
+                cex = sidecar.search(pid, sidecar.SEARCHERS.get(r["name"], r["name"]), f, seed, 60 if tier == "thorough" else 8)
             except Exception as e:
                 cex = None
                 f["search_error"] = repr(e)
